@@ -2143,7 +2143,13 @@ class TargetRegistry:
 
         registered = False
         for cur_type, sub_tree in list(_type_tree.items()):
-            if issubclass(cur_type, new_type):
+            if cur_type is new_type:
+                # re-registration: the type keeps its subtree and moves to the end
+                # (treated as its own subclass it was nested under itself, one level
+                # deeper with every re-registration)
+                _type_tree[new_type] = _type_tree.pop(cur_type)
+                registered = True
+            elif issubclass(cur_type, new_type):
                 sub_tree = _type_tree.pop(cur_type)  # mutation for recursion brevity
                 try:
                     _type_tree[new_type][cur_type] = sub_tree
